@@ -103,7 +103,7 @@ ASSUMPTIONS += [
 ]
 TRUSTED_BASE = ['bash', 'the monitor\'s least-fixpoint skip model (20 lines)']
 SHARDS = {'quick': 1, 'thorough': 6}  # fork/exec-bound: 16 concurrent shards cost 3x the CPU of 6 for the same 4800 pipelines in this sandbox
-TIMEOUT = {'quick': 600, 'thorough': 1800}
+TIMEOUT = {'quick': 900, 'thorough': 1800}
 
 
 def FLOORS(tier):
